@@ -220,3 +220,214 @@ Proof.
   exists rb2. split; [assumption|]. split; [assumption|]. split; [assumption|].
   rewrite R2, R1, Hs, skipn_app, skipn_all, Nat.sub_diag. reflexivity.
 Qed.
+
+(* ---- one mode code in the decoder ---- *)
+
+Open Scope Z_scope.
+
+Lemma st2_values : st_pass = 1%N /\ st_horiz = 2%N /\ st_vert = 3%N /\ st_ext = 4%N /\ st_eol = 10%N.
+Proof. repeat split; reflexivity. Qed.
+
+Lemma dec2d_mode p refc cols a0 cur pa pc line r rb c tail :
+  In c mode_codes -> fst (snd c) <> st_eol -> a0 < cols -> (a0 <> pa \/ cur <> pc) ->
+  good r rb -> real r rb = fst c ++ tail ->
+  exists r2 rb2, good r2 rb2 /\ real r2 rb2 = tail /\
+    forall f, dec2d (S f) p refc cols a0 cur pa pc line r =
+      let st := fst (snd c) in
+      let '(b1, b2) := find_b1b2 p refc cols a0 cur in
+      if (st =? st_pass)%N then dec2d f p refc cols b2 cur a0 cur (fill_row line a0 b2 cur) r2
+      else if (st =? st_horiz)%N then
+        let '(n1, r3) := decode_full_run (g_cols p) (Bool.eqb cur (white_bit p)) r2 in
+        let a0' := Z.max a0 0 in
+        let k1 := Z.min (Z.of_N n1) (cols - a0') in
+        let line1 := fill_row line a0' (a0' + k1) cur in
+        let a1 := a0' + k1 in
+        let '(n2, r4) := decode_full_run (g_cols p) (negb (Bool.eqb cur (white_bit p))) r3 in
+        let k2 := Z.min (Z.of_N n2) (cols - a1) in
+        let line2 := fill_row line1 a1 (a1 + k2) (negb cur) in
+        dec2d f p refc cols (a1 + k2) cur a0 cur line2 r4
+      else if (st =? st_vert)%N then
+        let a1 := Z.min (b1 + int16 (snd (snd c))) cols in
+        dec2d f p refc cols a1 (negb cur) a0 cur (fill_row line a0 a1 cur) r2
+      else if (st =? st_ext)%N then (line, set_err r2 Malformed)
+      else dec2d f p refc cols a0 cur a0 cur line r2.
+Proof.
+  intros Hc Hne Ha Hg G Hs.
+  pose proof (mode_read c tail r rb Hc G Hs) as (rb2 & Hm).
+  destruct (peek 7 r) as [v r1] eqn:Ep. destruct Hm as (Hst & Hpa & G2 & R2).
+  exists (consume (N.to_nat (tget mainW v)) r1), rb2. split; [assumption|]. split; [assumption|]. intros f.
+  cbn [dec2d]. unfold no_err. rewrite (proj1 G). replace (a0 <? cols) with true by lia. cbn [andb].
+  replace ((a0 =? pa) && Bool.eqb cur pc) with false.
+  2:{ symmetry. apply andb_false_iff. destruct Hg as [H|H]; [left; lia|right; destruct cur, pc; try reflexivity; congruence]. }
+  rewrite Ep, Hst, Hpa. replace (fst (snd c) =? st_eol)%N with false by lia. reflexivity.
+Qed.
+
+(* ---- changing elements ---- *)
+
+Fixpoint incr (lo : Z) (l : list Z) : Prop :=
+  match l with [] => True | x :: r => lo < x /\ incr x r end.
+
+Lemma incr_weaken lo lo' l : lo' <= lo -> incr lo l -> incr lo' l.
+Proof. destruct l; cbn; [auto|]. intros H [H1 H2]. split; [lia|assumption]. Qed.
+
+Lemma drop_le_incr a0 cols : forall l lo, incr lo l -> Forall (fun x => x < cols) l ->
+  incr a0 (drop_le a0 l) /\ Forall (fun x => x < cols) (drop_le a0 l).
+Proof.
+  induction l as [|x l IH]; intros lo Hi Hf; cbn [drop_le]; [split; [exact I|constructor]|].
+  destruct Hi as [H1 H2]. destruct (x <=? a0) eqn:E.
+  - apply (IH x H2). exact (Forall_inv_tail Hf).
+  - split; [|assumption]. cbn [incr]. split; [lia|assumption].
+Qed.
+
+Lemma drop_le_idx_snd a0 : forall l i, snd (drop_le_idx a0 i l) = drop_le a0 l.
+Proof. induction l as [|x l IH]; intros i; cbn [drop_le_idx drop_le]; [reflexivity|]. destruct (x <=? a0); [apply IH|reflexivity]. Qed.
+
+Lemma next_two_spec linec cols a0 lo : incr lo linec -> Forall (fun x => x < cols) linec -> a0 < cols ->
+  let '(a1, a2) := next_two linec cols a0 in a0 < a1 /\ a1 <= a2 /\ a2 <= cols.
+Proof.
+  intros Hi Hf Ha. unfold next_two. destruct (drop_le_incr a0 cols linec lo Hi Hf) as [H1 H2].
+  destruct (drop_le a0 linec) as [|a1 [|a2 l]]; cbn [incr] in H1.
+  - lia.
+  - pose proof (Forall_inv H2). cbn beta in *. lia.
+  - pose proof (Forall_inv H2). pose proof (Forall_inv (Forall_inv_tail H2)). cbn beta in *. lia.
+Qed.
+
+Lemma find_b1b2_spec p refc cols a0 cur lo : incr lo refc -> Forall (fun x => x < cols) refc -> a0 < cols ->
+  let '(b1, b2) := find_b1b2 p refc cols a0 cur in a0 < b1 /\ b1 <= b2 /\ b2 <= cols.
+Proof.
+  intros Hi Hf Ha. unfold find_b1b2. pose proof (drop_le_idx_snd a0 refc 0) as Hs.
+  destruct (drop_le_idx a0 0 refc) as [idx l]. cbn [snd] in Hs. subst l.
+  destruct (drop_le_incr a0 cols refc lo Hi Hf) as [H1 H2].
+  set (l := drop_le a0 refc) in *.
+  assert (Hl' : forall l', (l' = l \/ l' = tl l) -> incr a0 l' /\ Forall (fun x => x < cols) l').
+  { intros l' [->| ->]; [split; assumption|]. destruct l as [|x l0]; [split; [exact I|constructor]|]. cbn [tl].
+    cbn [incr] in H1. split; [apply (incr_weaken x); [lia|tauto]|exact (Forall_inv_tail H2)]. }
+  assert (Hsel : exists l', (l' = l \/ l' = tl l) /\
+     match l with _ :: r => if negb (Bool.eqb (Nat.even idx) (Bool.eqb cur (white_bit p))) then r else l | [] => l end = l').
+  { destruct l as [|x r]; [exists []; auto|]. destruct (negb (Bool.eqb (Nat.even idx) (Bool.eqb cur (white_bit p)))); eexists; eauto. }
+  destruct Hsel as (l' & Hor & ->). destruct (Hl' l' Hor) as [I1 I2].
+  destruct l' as [|b1 [|b2 l0]]; cbn [incr] in I1.
+  - lia.
+  - pose proof (Forall_inv I2). cbn beta in *. lia.
+  - pose proof (Forall_inv I2). pose proof (Forall_inv (Forall_inv_tail I2)). cbn beta in *. lia.
+Qed.
+
+(* ---- the decoder follows the encoder through a row ---- *)
+
+Fixpoint enc2d_end (fuel : nat) (p : g3p) (refc linec : list Z) (cols a0 : Z) (cur : bool) : Z * bool :=
+  match fuel with
+  | O => (a0, cur)
+  | S fuel' =>
+    if a0 <? cols then
+      let '(a1, a2) := next_two linec cols a0 in
+      let '(b1, b2) := find_b1b2 p refc cols a0 cur in
+      let delta := a1 - b1 in
+      if b2 <? a1 then enc2d_end fuel' p refc linec cols b2 cur
+      else if (-3 <=? delta) && (delta <=? 3) then enc2d_end fuel' p refc linec cols a1 (negb cur)
+      else enc2d_end fuel' p refc linec cols a2 cur
+    else (a0, cur)
+  end.
+
+Lemma vert_word delta : -3 <= delta <= 3 ->
+  exists c, In c mode_codes /\ fst c = vert_bits delta /\ fst (snd c) = st_vert /\ int16 (snd (snd c)) = delta.
+Proof.
+  intros H. assert (delta = -3 \/ delta = -2 \/ delta = -1 \/ delta = 0 \/ delta = 1 \/ delta = 2 \/ delta = 3) as Hd by lia.
+  unfold mode_codes.
+  destruct Hd as [->|[->|[->|[->|[->|[->| ->]]]]]].
+  - exists (vert_bits (-3), (st_vert, 65533%N)). split; [cbn [In vert_bits]; tauto|repeat split; reflexivity].
+  - exists (vert_bits (-2), (st_vert, 65534%N)). split; [cbn [In vert_bits]; tauto|repeat split; reflexivity].
+  - exists (vert_bits (-1), (st_vert, 65535%N)). split; [cbn [In vert_bits]; tauto|repeat split; reflexivity].
+  - exists (vert_bits 0, (st_vert, 0%N)). split; [cbn [In vert_bits]; tauto|repeat split; reflexivity].
+  - exists (vert_bits 1, (st_vert, 1%N)). split; [cbn [In vert_bits]; tauto|repeat split; reflexivity].
+  - exists (vert_bits 2, (st_vert, 2%N)). split; [cbn [In vert_bits]; tauto|repeat split; reflexivity].
+  - exists (vert_bits 3, (st_vert, 3%N)). split; [cbn [In vert_bits]; tauto|repeat split; reflexivity].
+Qed.
+
+Theorem g4_row_sync p refc linec lo lo' (cols := Z.of_N (g_cols p)) :
+  incr lo refc -> Forall (fun x => x < cols) refc -> incr lo' linec -> Forall (fun x => x < cols) linec ->
+  forall fuelE a0 cur pa pc line r rb tail,
+  -1 <= a0 -> (a0 <> pa \/ cur <> pc) -> good r rb ->
+  real r rb = enc2d fuelE p refc linec cols a0 cur ++ tail ->
+  exists r' rb' line' pa' pc', good r' rb' /\ real r' rb' = tail /\
+    (fst (enc2d_end fuelE p refc linec cols a0 cur) <> pa' \/ snd (enc2d_end fuelE p refc linec cols a0 cur) <> pc') /\
+    forall f, dec2d (fuelE + f) p refc cols a0 cur pa pc line r =
+      dec2d f p refc cols (fst (enc2d_end fuelE p refc linec cols a0 cur)) (snd (enc2d_end fuelE p refc linec cols a0 cur))
+            pa' pc' line' r'.
+Proof.
+  intros Hri Hrf Hli Hlf. induction fuelE as [|fuelE IH]; intros a0 cur pa pc line r rb tail Ha Hg G Hs.
+  - cbn [enc2d enc2d_end app fst snd] in *. exists r, rb, line, pa, pc.
+    split; [assumption|]. split; [assumption|]. split; [assumption|]. intros f. reflexivity.
+  - cbn [enc2d enc2d_end] in *. destruct (a0 <? cols) eqn:Ea.
+    2:{ cbn [app fst snd] in *. exists r, rb, line, pa, pc. split; [assumption|]. split; [assumption|]. split; [assumption|].
+        intros f. assert (Hd : forall k, dec2d k p refc cols a0 cur pa pc line r = (line, r)).
+        { intros [|k]; cbn [dec2d]; [reflexivity|]. fold cols. rewrite Ea. reflexivity. }
+        rewrite !Hd. reflexivity. }
+    apply Z.ltb_lt in Ea.
+    pose proof (next_two_spec linec cols a0 lo' Hli Hlf Ea) as Hn.
+    pose proof (find_b1b2_spec p refc cols a0 cur lo Hri Hrf Ea) as Hb.
+    destruct (next_two linec cols a0) as [a1 a2]. destruct (find_b1b2 p refc cols a0 cur) as [b1 b2] eqn:Eb.
+    destruct Hn as (N1 & N2 & N3). destruct Hb as (B1 & B2 & B3).
+    destruct st2_values as (V1 & V2 & V3 & V4 & V5).
+    destruct (b2 <? a1) eqn:Ep.
+    + (* pass mode *)
+      rewrite <- app_assoc in Hs.
+      destruct (dec2d_mode p refc cols a0 cur pa pc line r rb ([false; false; false; true], (st_pass, 0%N)) _
+                  ltac:(cbn; auto) ltac:(cbn [fst snd]; lia) Ea Hg G Hs) as (r2 & rb2 & G2 & R2 & F2).
+      destruct (IH b2 cur a0 cur (fill_row line a0 b2 cur) r2 rb2 tail ltac:(lia) ltac:(left; lia) G2 R2)
+        as (r' & rb' & line' & pa' & pc' & G' & R' & Hg' & F').
+      exists r', rb', line', pa', pc'. split; [assumption|]. split; [assumption|]. split; [assumption|].
+      intros f. cbn [Nat.add]. rewrite F2. cbn [fst snd]. rewrite Eb. replace (st_pass =? st_pass)%N with true by lia. apply F'.
+    + destruct ((-3 <=? a1 - b1) && (a1 - b1 <=? 3)) eqn:Ev.
+      * (* vertical mode *)
+        destruct (vert_word (a1 - b1) ltac:(lia)) as (c & Hc & Hbits & Hst & Hd).
+        rewrite <- Hbits in Hs. rewrite <- app_assoc in Hs.
+        destruct (dec2d_mode p refc cols a0 cur pa pc line r rb c _ Hc ltac:(rewrite Hst; lia) Ea Hg G Hs) as (r2 & rb2 & G2 & R2 & F2).
+        destruct (IH a1 (negb cur) a0 cur (fill_row line a0 a1 cur) r2 rb2 tail ltac:(lia)
+                    ltac:(right; destruct cur; discriminate) G2 R2) as (r' & rb' & line' & pa' & pc' & G' & R' & Hg' & F').
+        exists r', rb', line', pa', pc'. split; [assumption|]. split; [assumption|]. split; [assumption|].
+        intros f. cbn [Nat.add]. rewrite F2. cbv zeta. rewrite Eb, Hst, Hd.
+        replace (st_vert =? st_pass)%N with false by lia. replace (st_vert =? st_horiz)%N with false by lia.
+        replace (st_vert =? st_vert)%N with true by lia.
+        replace (Z.min (b1 + (a1 - b1)) cols) with a1 by lia. apply F'.
+      * (* horizontal mode *)
+        change ([false; false; true] ++ ?x) with ([false; false; true] ++ x) in Hs.
+        rewrite <- !app_assoc in Hs.
+        destruct (dec2d_mode p refc cols a0 cur pa pc line r rb ([false; false; true], (st_horiz, 0%N)) _
+                    ltac:(cbn; auto) ltac:(cbn [fst snd]; lia) Ea Hg G Hs) as (r2 & rb2 & G2 & R2 & F2).
+        destruct (decode_full_run_rt (Bool.eqb cur (white_bit p)) (g_cols p) (Z.to_N (a1 - Z.max a0 0)) _ r2 rb2 G2 R2
+                    ltac:(unfold cols in *; lia)) as (r3 & rb3 & D3 & G3 & R3).
+        destruct (decode_full_run_rt (negb (Bool.eqb cur (white_bit p))) (g_cols p) (Z.to_N (a2 - a1)) _ r3 rb3 G3 R3
+                    ltac:(unfold cols in *; lia)) as (r4 & rb4 & D4 & G4 & R4).
+        destruct (IH a2 cur a0 cur
+                    (fill_row (fill_row line (Z.max a0 0) a1 cur) a1 a2 (negb cur)) r4 rb4 tail ltac:(lia) ltac:(left; lia) G4 R4)
+          as (r' & rb' & line' & pa' & pc' & G' & R' & Hg' & F').
+        exists r', rb', line', pa', pc'. split; [assumption|]. split; [assumption|]. split; [assumption|].
+        intros f. cbn [Nat.add]. rewrite F2. cbv zeta. cbn [fst snd]. rewrite Eb.
+        replace (st_horiz =? st_pass)%N with false by lia. replace (st_horiz =? st_horiz)%N with true by lia.
+        rewrite D3, D4.
+        replace (Z.min (Z.of_N (Z.to_N (a1 - Z.max a0 0))) (cols - Z.max a0 0)) with (a1 - Z.max a0 0) by lia.
+        replace (Z.max a0 0 + (a1 - Z.max a0 0)) with a1 by lia.
+        replace (Z.min (Z.of_N (Z.to_N (a2 - a1))) (cols - a1)) with (a2 - a1) by lia.
+        replace (a1 + (a2 - a1)) with a2 by lia. apply F'.
+Qed.
+
+Lemma changes_from_incr : forall px x prev,
+  incr (x - 1) (changes_from x prev px) /\ Forall (fun y => y < x + Z.of_nat (length px)) (changes_from x prev px).
+Proof.
+  induction px as [|c px IH]; intros x prev; cbn [changes_from length]; [split; [exact I|constructor]|].
+  destruct (Bool.eqb c prev).
+  - destruct (IH (x + 1) prev) as [I1 I2]. split.
+    + apply (incr_weaken (x + 1 - 1)); [lia|assumption].
+    + eapply Forall_impl; [|exact I2]. cbn beta. intros y Hy. lia.
+  - destruct (IH (x + 1) c) as [I1 I2]. split.
+    + cbn [incr]. split; [lia|]. replace (x + 1 - 1) with x in I1 by lia. exact I1.
+    + constructor; [lia|]. eapply Forall_impl; [|exact I2]. cbn beta. intros y Hy. lia.
+Qed.
+
+Lemma changing_ok p row : incr (-1) (changing p (row_px p row)) /\
+  Forall (fun y => y < Z.of_N (g_cols p)) (changing p (row_px p row)).
+Proof.
+  unfold changing. destruct (changes_from_incr (row_px p row) 0 (white_bit p)) as [I1 I2]. split; [exact I1|].
+  eapply Forall_impl; [|exact I2]. cbn beta. intros y Hy.
+  assert (length (row_px p row) <= N.to_nat (g_cols p))%nat by (unfold row_px; apply firstn_le_length). lia.
+Qed.
